@@ -240,7 +240,7 @@ def run(spec, out):
             ran = hooks.counters["fn_invocations"] > 0
             if r[0] == "exc" and isinstance(r[1], FORBIDDEN):
                 e = r[1]
-                crisk = "multi-bracket-in-flatten" if "multi-bracket-in-flatten" in case.feats else ""
+                crisk = G.risk(case)
                 out.violation({"kind": "internal-exception", "exc": type(e).__name__, "family": case.family, "risk": crisk, **exc_site(e)}, {**info, "message": str(e)[:200]}, f"{case.op}({desc!r}, shapes={info['shapes']}, {info['kwargs']}) [{edit} of {base_desc!r}]: {type(e).__name__}: {str(e)[:100]}")
                 continue
             out.distinct_key(f"{case.op}|{edit}|{proof}|{type(r[1]).__name__ if r[0] == 'exc' else 'accepted'}")
